@@ -98,7 +98,7 @@ Proof.
           split; [repeat f_equal; lia|]. split; [lia|]. rewrite Hscan, Hk. reflexivity.
         * lia.
       + (* B[j] > s: start = j or j-1, break *)
-        stepn. rewrite Fgt. stepn. stepn. Show. stepn. split_if as Hj0.
+        stepn. rewrite Fgt. stepn. stepn. split_if as Hj0.
         * stepsn. eexists _, _, _. rewrite Hscan, Hk. apply Z.eqb_eq in Hj0.
           replace (j =? 0)%nat with true by (symmetry; apply Nat.eqb_eq; lia). reflexivity.
         * stepsn. eexists _, _, _. rewrite Hscan, Hk. apply Z.eqb_neq in Hj0.
